@@ -21,7 +21,7 @@ type c17TokCase struct {
 }
 
 var c17Atoms = []string{"a", "b", "word", "License", "1", "42", " ", "  ", "\t", "\n", "\r\n", " ", " ", "　", ".", ",", "(", ")", "-", "—", "«", "»", "“", "”", "…", "'", "é", "ß", "日本", "語", "😀", "𝐀",
-	"\xff", "\xfe\xff", "\xc3", "\xe2\x80", "\xf0\x9f", "\xf4\x90\x80\x80", "\x00", "\x80", "+", "$", "^", "`", "~", "|", "=", "<", ">"}
+	"\uFFFD", "na\uFFFDve", "\xff", "\xfe\xff", "\xc3", "\xe2\x80", "\xf0\x9f", "\xf4\x90\x80\x80", "\x00", "\x80", "+", "$", "^", "`", "~", "|", "=", "<", ">"}
 
 func c17TokGen(t *rapid.T) interface{} {
 	var sb strings.Builder
